@@ -47,6 +47,24 @@ type traceLine struct {
 	Tampered  bool     `json:"tampered"`
 	Raw       string   `json:"raw"`
 	Raw2      string   `json:"raw2,omitempty"` // PAIR: the second event; ops with arguments: the argument
+	// how the signer identities of the behaviour are spelt (AS signs under a name / key ID spelt this way)
+	SName string `json:"sname"`
+	SKey  string `json:"skey"`
+}
+
+var nameSpellings = []string{"dns", "port", "ipv4", "ipv4port", "ipv6", "ipv6port", "label", "long"}
+var keySpellings = []string{"alnum", "under", "leadunder", "digits", "upper", "long"}
+
+// randSpelling: half of the identities plainly spelt, the others in any class.
+func randSpelling(r *rand.Rand) spelling {
+	sp := plainSpelling
+	if r.Intn(2) == 0 {
+		sp.Name = nameSpellings[r.Intn(len(nameSpellings))]
+	}
+	if r.Intn(2) == 0 {
+		sp.Key = keySpellings[r.Intn(len(keySpellings))]
+	}
+	return sp
 }
 
 func token(v interface{}) string {
@@ -245,6 +263,7 @@ type randProto struct {
 	pe     gmsl.ProtoEvent
 	now    int64
 	signer signer
+	sp     spelling
 	room   *roomInfo
 }
 
@@ -299,7 +318,8 @@ func randomProto(r *rand.Rand) randProto {
 		out.room = roomFor(ver, []string{"r1", "r2"}[r.Intn(2)])
 		pe.RoomID = out.room.id
 	}
-	out.signer = signerFor(ver, []string{"hs1", "hs2"}[r.Intn(2)], []string{"k1", "k2"}[r.Intn(2)])
+	out.sp = randSpelling(r)
+	out.signer = signerFor(ver, []string{"hs1", "hs2"}[r.Intn(2)], []string{"k1", "k2"}[r.Intn(2)], out.sp)
 	out.pe = pe
 	return out
 }
@@ -329,7 +349,7 @@ func mutateProto(r *rand.Rand, p randProto) randProto {
 			u, _ := json.Marshal(map[string]interface{}{"age": r.Intn(1000)})
 			q.pe.Unsigned = spec.RawJSON(u)
 		case 3:
-			q.signer = signerFor(p.ver, []string{"hs1", "hs2"}[r.Intn(2)], []string{"k1", "k2"}[r.Intn(2)])
+			q.signer = signerFor(p.ver, []string{"hs1", "hs2"}[r.Intn(2)], []string{"k1", "k2"}[r.Intn(2)], randSpelling(r))
 		case 4:
 			var c map[string]interface{}
 			_ = json.Unmarshal(p.pe.Content, &c)
@@ -443,19 +463,20 @@ func perform(ln *traceLine) (err error) {
 		return fmt.Errorf("the event does not parse as trusted JSON: %w", err)
 	}
 	idBefore := p.EventID()
+	sp := spelling{ln.SName, ln.SKey}.norm()
 	var q gmsl.PDU
 	switch ln.Op {
 	case "RU":
 		ln.HashMatch = hashMatches(ln.Ver, []byte(ln.Raw))
 		q, err = impl.NewEventFromUntrustedJSON([]byte(ln.Raw))
 	case "RT", "RH", "RD":
-		q, err = applyOp(ln.Ver, impl, p, ln.Op)
+		q, err = applyOp(ln.Ver, impl, p, ln.Op, sp)
 	case "SU":
-		q, err = applyOp(ln.Ver, impl, p, "SU1")
+		q, err = applyOp(ln.Ver, impl, p, "SU1", sp)
 	case "SF":
-		q, err = applyOp(ln.Ver, impl, p, "SF")
+		q, err = applyOp(ln.Ver, impl, p, "SF", sp)
 	case "AS":
-		q, err = applyOp(ln.Ver, impl, p, "AS2")
+		q, err = applyOp(ln.Ver, impl, p, "AS2", sp)
 	case "PAIR":
 		q, err = impl.NewEventFromTrustedJSON([]byte(ln.Raw2), false)
 	default:
@@ -510,7 +531,7 @@ func record(a *hx.Args) error {
 		red := false
 		steps := 1 + r.Intn(4)
 		for s := 0; s < steps && tw.N < a.N; s++ {
-			ln := traceLine{Ver: p.ver, Raw: string(cur), BRed: red}
+			ln := traceLine{Ver: p.ver, Raw: string(cur), BRed: red, SName: p.sp.Name, SKey: p.sp.Key}
 			x := 2 + r.Intn(8) // mode c03: every operation but tampering
 			if c04 {
 				x = 0
@@ -580,7 +601,7 @@ func redo(impl gmsl.IRoomVersion, ln *traceLine) ([]byte, bool, bool) {
 		case "AS":
 			op = "AS2"
 		}
-		q, err := applyOp(ln.Ver, impl, p, op)
+		q, err := applyOp(ln.Ver, impl, p, op, spelling{ln.SName, ln.SKey}.norm())
 		if err != nil || q == nil {
 			return hx.Result{}
 		}
